@@ -192,3 +192,39 @@ Lemma src_policy_prune_filter_agrees : forall sc (c : cobj),
 Proof.
   intros sc c. unfold can_prune. destruct (o_policy (sc_opts sc)), (c_owner c); reflexivity.
 Qed.
+
+(* ---- the deletion-prevention annotations (pkg/common/common.go NoDeletion) ---------------------------
+   `c_keep` / `l_keep` of the model stand for "carries a deletion-prevention annotation".  The harness spells such
+   annotations with the library's own constants, so a changed constant would go unnoticed by the correspondence; the
+   documented spellings are therefore pinned here against the translated constants and the key -> value map of NoDeletion:
+   exactly  cli-utils.sigs.k8s.io/on-remove: keep  and  client.lifecycle.config.k8s.io/deletion: detach. *)
+Definition src_const (n : string) : option string :=
+  match find (fun kv => fst kv =? n) src_common_consts with Some kv => Some (snd kv) | None => None end.
+Definition src_no_deletion (key value : string) : bool :=
+  existsb (fun kv => match src_const (fst kv), src_const (snd kv) with
+                     | Some k, Some v => (k =? key) && (v =? value)
+                     | _, _ => false
+                     end) src_no_deletion_map.
+Lemma src_no_deletion_agrees : forall key value,
+  src_no_deletion key value =
+    ((key =? "client.lifecycle.config.k8s.io/deletion") && (value =? "detach"))
+    || ((key =? "cli-utils.sigs.k8s.io/on-remove") && (value =? "keep")).
+Proof.
+  intros key value.
+  change (src_no_deletion key value) with
+    ((("client.lifecycle.config.k8s.io/deletion" =? key) && ("detach" =? value))
+     || ((("cli-utils.sigs.k8s.io/on-remove" =? key) && ("keep" =? value)) || false)).
+  rewrite (String.eqb_sym "client.lifecycle.config.k8s.io/deletion" key), (String.eqb_sym "detach" value),
+          (String.eqb_sym "cli-utils.sigs.k8s.io/on-remove" key), (String.eqb_sym "keep" value).
+  rewrite Bool.orb_false_r. reflexivity.
+Qed.
+Lemma src_no_deletion_shape :
+  src_no_deletion_tail = ["if val, found := m[key]; found { return val == value }"; "return false"] /\
+  forallb (fun kv => match src_const (fst kv), src_const (snd kv) with Some _, Some _ => true | _, _ => false end)
+          src_no_deletion_map = true.
+Proof. split; reflexivity. Qed.
+Lemma src_annotation_keys :
+  src_depends_on_annotation = "config.kubernetes.io/depends-on" /\
+  src_mutation_annotation = "config.kubernetes.io/apply-time-mutation" /\
+  src_const "InventoryLabel" = Some "cli-utils.sigs.k8s.io/inventory-id".
+Proof. repeat split; reflexivity. Qed.
